@@ -66,6 +66,9 @@ struct Inner {
     caps: Vec<String>,
 }
 
+/// Set by `--replay <file>`: the key of the one violation to reproduce.
+pub static REPLAY_KEY: std::sync::OnceLock<String> = std::sync::OnceLock::new();
+
 impl Report {
     pub fn new(prop: &str, tier: Tier) -> Self {
         let seed = std::env::var("VERIF_SEED").ok().and_then(|s| s.parse().ok()).unwrap_or(0);
@@ -166,6 +169,22 @@ impl Report {
             println!("KNOWN-FINDING: property={} {} [{}]", self.prop, what, key);
         }
 
+        // replay mode: the check ran as usual; only the recorded case decides, no evidence is written
+        if let Some(key) = REPLAY_KEY.get() {
+            let hit = g.violations.iter().find(|v| &v.key == key);
+            return match hit {
+                Some(v) => {
+                    println!("VIOLATION property={} replay={}", self.prop, std::env::var("MSVERIF_REPLAY_FILE").unwrap_or_default());
+                    println!("  reproduced: class={} what={}", v.class, v.what);
+                    println!("  key={}", v.key);
+                    1
+                }
+                None => {
+                    println!("{} replay: the recorded case no longer violates the property (key {})", self.prop, key);
+                    0
+                }
+            };
+        }
         // group new violations by class, print at most a few replays per class
         let mut by_class: BTreeMap<String, Vec<&Violation>> = BTreeMap::new();
         for v in &new_v {
@@ -181,6 +200,7 @@ impl Report {
                 let path = format!("{}/replays/{}-{:016x}.json", VERIF_DIR, self.prop, h);
                 let body = json!({
                     "property": self.prop,
+                    "tier": self.tier.name(),
                     "class": class,
                     "key": v.key,
                     "what": v.what,
